@@ -526,7 +526,22 @@ func (sc *c16CKKS) runRefresh(d *c16Deploy, ct *rlwe.Ciphertext, m []*bignum.Com
 	if p := sc.logBound + 96; p > tprec {
 		tprec = p
 	}
-	mt0, err := mpckks.NewMaskedLinearTransformationProtocol(cp, cpOut, tprec, d.noise)
+	// with other output parameters the protocol is built for them, or built for the input parameters and re-targeted
+	viaWithParams := !paramsOut.Equal(&params) && ch.Bool("protocol-by-WithParams")
+	mkProto := func() (mpckks.MaskedLinearTransformationProtocol, error) {
+		if viaWithParams {
+			p, err := mpckks.NewMaskedLinearTransformationProtocol(cp, cp, tprec, d.noise)
+			if err != nil {
+				return p, err
+			}
+			return p.WithParams(cpOut), nil
+		}
+		return mpckks.NewMaskedLinearTransformationProtocol(cp, cpOut, tprec, d.noise)
+	}
+	if viaWithParams {
+		ctx.Count("probe.protocol-retargeted-by-WithParams", 1)
+	}
+	mt0, err := mkProto()
 	if err != nil {
 		ctx.Fail("protocol", name+"|constructor", "NewMaskedLinearTransformationProtocol failed: %v", err)
 		return false
@@ -543,7 +558,7 @@ func (sc *c16CKKS) runRefresh(d *c16Deploy, ct *rlwe.Ciphertext, m []*bignum.Com
 		if i > 0 && ch.Bool("proto-by-shallowcopy") {
 			p = mt0.ShallowCopy()
 		} else if i > 0 {
-			p, _ = mpckks.NewMaskedLinearTransformationProtocol(cp, cpOut, tprec, d.noise)
+			p, _ = mkProto()
 		}
 		s := p.AllocateShare(e2sLevel, outLevel)
 		var gerr error
